@@ -237,6 +237,83 @@ def resume_atomicity(ck, P):
             ck.ok(R, short, "%d suspension exits, %d checkpoints: bits are consumed before a suspension only together with a state commit" % (len(exits), len(checkpoints)))
 
 
+def suspension_structure(fn, mt):
+    """(switch block, checkpoints, suspension exits) of a mode loop"""
+    sws = fn.enum_switches("inflate::Mode", mt)
+    if len(sws) != 1:
+        return None
+    sw = sws[0]
+    checkpoints, exits = {sw}, set()
+    for c in fn.live_calls(r"BitReader::(need_bits|pull_byte)$"):
+        cur = c.target
+        for _ in range(4):
+            t = fn.blocks[cur]["t"]
+            if t["k"] == "switch":
+                for lab, tb in fn.succ[cur]:
+                    if lab is None or lab[0] == "const":
+                        continue
+                    for a in fn.edge_atoms(cur, lab):
+                        if a[0] != "is":
+                            continue
+                        vs = set(a[2])
+                        if (a[3] and vs == {"Ok"}) or (not a[3] and vs == {"Err"}):
+                            checkpoints.add(tb)
+                        elif (a[3] and vs == {"Err"}) or (not a[3] and vs == {"Ok"}):
+                            exits.add(tb)
+                break
+            su = fn.succ[cur]
+            if len(su) != 1:
+                break
+            cur = su[0][1]
+    return sw, checkpoints, exits
+
+
+def handover_after_suspension(ck, P, R="PAIR/handover-after-suspension", arms=None):
+    """The local `mode` is what a suspension writes back to the state.  An arm that names its successor
+    (`mode = Next`) and can still run out of input afterwards (inside the same arm) is re-entered at `Next` on the
+    following call: whatever the arm does after its last input request (compare a trailer, store a length) is skipped
+    for exactly the schedules that split the input there."""
+    n = 0
+    res = {}
+    for path, mt in ((decoders.DISPATCH, 20), (decoders.LEN_AND_FRIENDS, 4)):
+        fn = P.fn(path)
+        if not ck.anchor("fn " + path, fn):
+            continue
+        st = suspension_structure(fn, mt)
+        if not ck.anchor("mode switch in " + path, st is not None):
+            continue
+        sw, checkpoints, exits = st
+        regions = fn.arm_regions(sw)
+        short = path.split("::")[-1]
+        for i, lc in enumerate(fn.locals):
+            if not (lc.get("name") == "mode" and "inflate::Mode" in lc["ty"]):
+                continue
+            for bi, si, rv in fn.defs.get(i, []):
+                if bi not in fn.live or rv is None or si == "call":
+                    continue
+                ec = fn.enum_const(fn.rvalue_expr(rv))
+                if ec is None:
+                    continue
+                target = P.variant_name(ec[0], ec[1]) if not isinstance(ec[1], str) else ec[1]
+                owner = [a for a, blocks in regions.items() if bi in blocks]
+                if len(owner) != 1 or owner[0] == target:
+                    continue
+                if arms is not None and owner[0] not in arms:
+                    continue
+                n += 1
+                leak = flow.reaches_avoiding(fn, [bi], exits, cut_blocks={sw})
+                line = fn.blocks[bi]["s"][si].get("line") if isinstance(si, int) else None
+                res.setdefault((short, owner[0], target), []).append((leak, line, fn))
+    for (short, own, target), lst in sorted(res.items()):
+        leaks = [(line, fn) for leak, line, fn in lst if leak]
+        ck.decide(not leaks, R, "%s:%s->%s" % (short, own, target),
+                  "no input request follows the hand-over inside the arm (%d assignment(s))" % len(lst),
+                  "arm %s of %s sets mode = %s and can afterwards still run out of input inside the same arm: the suspension "
+                  "stores %s, so the rest of arm %s is skipped when the input is split there" % (own, short, target, target, own),
+                  where(leaks[0][1], leaks[0][0]) if leaks else where(lst[0][2], lst[0][1]))
+    return n
+
+
 def mode_total(ck, P):
     R = "MODE/total"
     adt = P.adt(Z + "inflate::Mode")
@@ -313,6 +390,8 @@ def run(ck):
     siblings(ck, P)
     write_back(ck, P)
     resume_atomicity(ck, P)
+    n = handover_after_suspension(ck, P)
+    ck.floor("PAIR/handover-after-suspension", n, 20)
     mode_total(ck, P)
     buf_error_shape(ck, P)
     ck.assumptions += ["rustc MIR", "sibling exception table (rules/props/c04.py) confirmed by reading", "host target; K1"]
